@@ -12,6 +12,7 @@ from harness import targets
 
 
 SCALE = float(os.environ.get('VERIF_TIME_SCALE', '1'))
+STUCK = []
 
 
 def collect(conns, whos, bound):
@@ -87,8 +88,10 @@ def exchange(kind, method, nprod, ncons, per, maxsize, size, timeout=None, nowai
         t.start()
         procs.append(t)
         conns.append(r)
-    events, bad = collect(conns, whos, 60 * SCALE)
+    events, bad = collect(conns, whos, (12 if STUCK else 40) * SCALE)
     stuck = any(e['k'] in ('party_hung', 'party_died') for e in events)
+    if stuck:
+        STUCK.append(1)      # later scenarios wait less: one stuck party already decides the run
     if kind == 'JoinableQueue' and not stuck:
         t0 = targets._us()
         done = []
